@@ -45,7 +45,7 @@ def run_generators(pid, tier, seed, nproc, hashseeds, extra_env=None):
     return events
 
 
-CONFORMANCE_ONLY = {"maxtokens-conformance", "threshold-conformance", "coarsen-conformance"}
+CONFORMANCE_ONLY = {"maxtokens-conformance", "threshold-conformance", "coarsen-conformance", "detsize-conformance"}
 
 
 def judge(report, module, events, chunk=60000, timeout=1500, relevant=None):
